@@ -20,6 +20,7 @@ func init() {
 	rt.Register("C14_Arith", C14_Arith)
 	rt.Register("C14_JSON", C14_JSON)
 	rt.Register("C14_Trims", C14_Trims)
+	rt.Register("C14_RegexpGroup", C14_RegexpGroup)
 }
 
 func outcome(v interface{}, err error) string {
@@ -154,6 +155,13 @@ func C14_Trims() {
 		text.RightTrim(terminal.Rune('a'), mR),
 		text.RightTrim(text.LeftTrim(terminal.Rune('b'), mL), mR)))
 	SharedParse(root, in)
+}
+
+// C14_RegexpGroup: a Regexp terminal with a capturing group selected (a branch
+// of its own in terminal.Regexp), repeated and trimmed.
+func C14_RegexpGroup() {
+	root := combinator.Sentence(combinator.Many(text.Trim(terminal.Regexp("r", "ID", "identifier", `([a-z]+)[0-9]*`, 1))))
+	SharedParse(root, freeInput(rt.Param("N", 3)))
 }
 
 func freeInput(maxN int) []byte {
